@@ -72,12 +72,8 @@ def _run(job):
         env.pop(k, None)
     env.update(env_extra)
     env.setdefault('ASAN_OPTIONS', 'detect_leaks=0')
-    with open(out, 'wb') as f:
-        try:
-            p = subprocess.run([exe] + [str(a) for a in args], stdout=f, stderr=subprocess.PIPE, timeout=1200, env=env)
-            return rtag, p.returncode, p.stderr.decode('utf8', 'replace')[-2500:]
-        except subprocess.TimeoutExpired:
-            return rtag, -9, 'timeout'
+    p = V.run_limited([exe] + [str(a) for a in args], out, timeout=1200, env=env)
+    return rtag, p.returncode, p.stderr[-2500:]
 
 
 def copy_passes(path):
